@@ -62,11 +62,73 @@ def derived_attrs(repo):
     return out
 
 
+def _tail_yield_canonical(repo, fi):
+    """`while last < ns: yield (first, last); <advance>; last = first + W` followed by `yield (first, ns)`: full windows in the loop, the clipped last one after it.
+    With the invariant last == first + W at the loop test this is the canonical generator `last = min(first + W, ns); yield; if last == ns: break; <advance>`.
+    The invariant, the loop test and the two yields are checked here; the canonical form is then built from the code's OWN advance statements and handed to the model.
+    -> a FunctionInfo with the canonical body, or None when firstlast is not written this way."""
+    import copy
+    import dataclasses
+    body = [s_ for s_ in fi.node.body if not (isinstance(s_, ast.Expr) and isinstance(s_.value, ast.Constant))]
+    loops = [s_ for s_ in body if isinstance(s_, ast.While)]
+    if len(loops) != 1 or (isinstance(loops[0].test, ast.Constant) and loops[0].test.value is True):
+        return None
+    lp = loops[0]
+    after = body[body.index(lp) + 1:]
+    t = lp.test
+    if not (len(after) == 1 and isinstance(after[0], ast.Expr) and isinstance(after[0].value, ast.Yield) and isinstance(t, ast.Compare) and len(t.ops) == 1
+            and isinstance(t.ops[0], ast.Lt) and isinstance(t.left, ast.Name)):
+        return None
+    last_nm = t.left.id
+    ys = [s_ for s_ in lp.body if isinstance(s_, ast.Expr) and isinstance(s_.value, ast.Yield)]
+    if len(ys) != 1 or lp.body[0] is not ys[0]:
+        return None
+    yv, tv = ys[0].value.value, after[0].value.value
+    if not (isinstance(yv, ast.Tuple) and len(yv.elts) == 2 and isinstance(tv, ast.Tuple) and len(tv.elts) == 2 and loc_name(yv.elts[1]) == last_nm
+            and norm(yv.elts[0]) == norm(tv.elts[0]) and norm(tv.elts[1]) == norm(t.comparators[0])):
+        return None
+    first_nm = loc_name(yv.elts[0])
+    # invariant: last == first + W before the loop and after the advance
+    base = derived_attrs(repo)
+    pre = body[: body.index(lp)]
+    ev = Evaluator(env=dict(base), facts=_facts(), resolve=_resolver(repo, fi))
+    sx = SymExec(ev, on_undecided="havoc")
+    sx.run(pre)
+    if first_nm not in ev.env or last_nm not in ev.env:
+        return None
+    W = ev.env[last_nm] - ev.env[first_nm]
+    ev.env[first_nm] = Poly.sym("F")
+    ev.env[last_nm] = Poly.sym("F") + W
+    for s_ in lp.body[1:]:
+        sx.step(s_)
+    if ev.env.get(last_nm) is None or ev.env.get(first_nm) is None or ev.env[last_nm] - ev.env[first_nm] != W:
+        return None
+    adv = [copy.deepcopy(s_) for s_ in lp.body[1:] if not (isinstance(s_, ast.Assign) and loc_name(s_.targets[0]) == last_nm)]
+    pre_c = [copy.deepcopy(s_) for s_ in pre if not (isinstance(s_, ast.Assign) and loc_name(s_.targets[0]) == last_nm)]
+    Wsrc = None
+    for s_ in lp.body[1:]:
+        if isinstance(s_, ast.Assign) and loc_name(s_.targets[0]) == last_nm:
+            Wsrc = s_.value
+    if Wsrc is None:
+        return None
+    canon = ast.parse(f"while True:\n    {last_nm} = min({src(Wsrc)}, {src(t.comparators[0])})\n    yield ({first_nm}, {last_nm})\n    if {last_nm} == {src(t.comparators[0])}:\n        break\n").body[0]
+    canon.body += adv
+    fn = copy.deepcopy(fi.node)
+    fn.body = pre_c + [canon]
+    ast.fix_missing_locations(fn)
+    for n_ in ast.walk(fn):
+        if not hasattr(n_, "lineno"):
+            n_.lineno = lp.lineno
+            n_.col_offset = 0
+    return dataclasses.replace(fi, node=fn)
+
+
 def generator_model(repo):
     """Evaluate WindowGenerator.firstlast into closed forms over the iteration number K: the loop-carried variables (a local cursor `first`, a
     local counter, self.iw ...) are solved as v_K = v_0 + K * delta (or as a copy of another solved variable), the yielded pair, the end test
     and self.iw at the yield are then expressed in K.  -> dict (same keys as before; 'F' is first_K, 'first_next' is first_(K+1))."""
     fi = repo.fn(CLS + ".firstlast")
+    fi = _tail_yield_canonical(repo, fi) or fi
     loops = [s for s in fi.node.body if isinstance(s, ast.While)]
     if not loops:
         g = _array_form_model(repo, fi)
@@ -626,6 +688,37 @@ def _ramp_vectors(fi, ev, OV):
     return out
 
 
+def _template_cache_tests(ctx, fi, tnames):
+    """Amplitude templates kept across windows: `if T is None or T.size != last - first: T = <build>` followed by `amp = T.copy()`.  The cached value equals a fresh
+    build when what is built depends on the window only through its length (and loop invariants), the validity test compares that length, and the window gets a COPY.
+    -> ids of the validity tests that may be taken as true (rebuild) by the amplitude model."""
+    ok_ids = set()
+    first, last = tnames
+    for st in walk_function(fi.node):
+        if not (isinstance(st, ast.If) and isinstance(st.test, ast.BoolOp) and isinstance(st.test.op, ast.Or) and len(st.test.values) == 2 and not st.orelse):
+            continue
+        a, b = st.test.values
+        if not (isinstance(a, ast.Compare) and isinstance(a.ops[0], ast.Is) and isinstance(a.comparators[0], ast.Constant) and a.comparators[0].value is None and isinstance(a.left, ast.Name)):
+            continue
+        T = a.left.id
+        size_ok = isinstance(b, ast.Compare) and isinstance(b.ops[0], ast.NotEq) and src(b.left).replace(" ", "") in (f"{T}.size", f"len({T})", f"{T}.shape[0]") \
+            and src(b.comparators[0]).replace(" ", "") == f"{last}-{first}"
+        # the build arm mentions the window only through last - first
+        txt = " ".join(src(x) for x in st.body).replace(" ", "")
+        only_len = first not in txt.replace(f"{last}-{first}", "") and last not in txt.replace(f"{last}-{first}", "").replace("wflip", "").replace("flipud", "")
+        copies = [n for n in walk_function(fi.node) if isinstance(n, ast.Assign) and isinstance(n.value, ast.Call) and call_name(n.value) == "copy" and isinstance(n.value.func, ast.Attribute)
+                  and loc_name(n.value.func.value) == T]
+        aliases = [n for n in walk_function(fi.node) if isinstance(n, ast.Assign) and loc_name(n.value) == T]
+        ok = size_ok and only_len and bool(copies) and not aliases
+        ctx.check(ok, fi, st, st, f"amplitude template `{T}` is rebuilt when the window length changes, depends on the window only through its length, and every window gets its own copy",
+                  f"the cached amplitude template `{T}` " + ("is handed out without a copy: writing into one window's amplitudes changes the next ones" if (size_ok and only_len and (aliases or not copies)) else
+                                                             "is not revalidated against the window length / depends on the window position: a later window gets another window's amplitudes"),
+                  key=f"amp-template:{T}", name_free=True)
+        if ok:
+            ok_ids.add(id(st.test))
+    return ok_ids
+
+
 def d4_splicing(ctx):
     ctx.rule("D4", "splicing amplitudes, per window class (interior / first / last / single): rising ramp on the first `overlap` samples iff the window has a "
                    "predecessor, mirrored ramp on the last `overlap` samples iff it has a successor, one elsewhere; no unproven -e slice bound")
@@ -664,7 +757,14 @@ def d4_splicing(ctx):
     for cname, (is_first, is_last, constraint) in WINDOW_CLASSES.items():
         F, N = Poly.sym("first"), Poly.sym("n")
         ev = Evaluator(env={tnames[0]: F, tnames[1]: F + N, "first": F, "last": F + N}, facts=_facts(), resolve=_resolver(repo, fi))
-        ex = Extractor(ev, _class_decider(ev, is_first, is_last), {k: v[2] for k, v in ramps.items()})
+        cache_tests = _template_cache_tests(ctx, fi, tnames)
+        base_dec = _class_decider(ev, is_first, is_last)
+
+        def dec(t, base_dec=base_dec, cache_tests=cache_tests):
+            if id(t) in cache_tests:
+                return True      # the (re)build arm: a valid cached template is a copy of what that arm builds (checked by _template_cache_tests)
+            return base_dec(t)
+        ex = Extractor(ev, dec, {k: v[2] for k, v in ramps.items()})
         ex.run(fi.node.body)
         if not ex.yielded:
             raise AnalysisError("firstlast_splicing: nothing is yielded")
